@@ -122,7 +122,13 @@ func genProdCase(t *rapid.T) prodCase {
 			c.Ints = append(c.Ints, small("code", 0, n-1))
 		}
 	case "MulticodeDecode", "Graph6Decode", "Sparse6Decode":
-		c.G = specOf(genAnyGraph(t, 9))
+		if rapid.Bool().Draw(t, "larger") {
+			// beyond one byte of index arithmetic and beyond the 1-byte size field
+			n := rapid.SampledFrom([]int{15, 16, 17, 18, 19, 24, 31, 32, 33, 40, 62, 63, 64, 70}).Draw(t, "n")
+			c.G = specOf(codecCase{N: n, Dens: rapid.SampledFrom([]int{1, 4, 8}).Draw(t, "dens"), Seed: rapid.Uint64().Draw(t, "gseed")}.Model())
+		} else {
+			c.G = specOf(genAnyGraph(t, 9))
+		}
 	}
 	return c
 }
@@ -455,7 +461,15 @@ func checkProdCase(c prodCase, rec *Rec) error {
 			}
 			want.RemoveVertex(c.B)
 		}
-		for name, eg := range map[string]graph.EditableGraph{"dense": denseOf(g), "sparse": sparseOf(g)} {
+		targets := map[string]graph.EditableGraph{}
+		for _, how := range buildWays {
+			bd, bs, berr := builtBy(how, g)
+			if berr != nil {
+				return berr
+			}
+			targets["dense/"+how], targets["sparse/"+how] = bd, bs
+		}
+		for name, eg := range targets {
 			if p := try(func() {
 				if c.Prod == "SplitEdge" {
 					graph.SplitEdge(eg, c.A, c.B)
